@@ -60,6 +60,7 @@ var (
 	fset    = token.NewFileSet()
 	sites   []site
 	goStmts int
+	goCount int // go statements found by the scan (all modes)
 	// mayBlock: the module uses synchronisation primitives, channels or goroutines
 	mayBlock bool
 )
@@ -148,7 +149,7 @@ func main() {
 	if err := os.WriteFile(filepath.Join(*out, "overlay.json"), oj, 0o644); err != nil {
 		die("%v", err)
 	}
-	sj, _ := json.Marshal(map[string]any{"mode": *mode, "sites": sites, "go_stmts": goStmts, "module": modPath, "may_block": mayBlock})
+	sj, _ := json.Marshal(map[string]any{"mode": *mode, "sites": sites, "go_stmts": goCount, "module": modPath, "may_block": mayBlock})
 	if err := os.WriteFile(filepath.Join(*out, "sites.json"), sj, 0o644); err != nil {
 		die("%v", err)
 	}
@@ -156,7 +157,7 @@ func main() {
 	for _, p := range pkgs {
 		nglob += len(p.globals)
 	}
-	fmt.Printf("instrument: mode=%s packages=%d globals=%d sites=%d go_stmts=%d may_block=%v\n", *mode, len(pkgs), nglob, len(sites)-1, goStmts, mayBlock)
+	fmt.Printf("instrument: mode=%s packages=%d globals=%d sites=%d go_stmts=%d may_block=%v\n", *mode, len(pkgs), nglob, len(sites)-1, goCount, mayBlock)
 }
 
 func write(overlay map[string]string, virt, name, src string) {
@@ -237,7 +238,10 @@ func scanBlocking(f *ast.File) {
 	}
 	ast.Inspect(f, func(n ast.Node) bool {
 		switch t := n.(type) {
-		case *ast.GoStmt, *ast.SelectStmt, *ast.SendStmt, *ast.ChanType:
+		case *ast.GoStmt:
+			mayBlock = true
+			goCount++
+		case *ast.SelectStmt, *ast.SendStmt, *ast.ChanType:
 			mayBlock = true
 		case *ast.UnaryExpr:
 			if t.Op == token.ARROW {
